@@ -586,7 +586,14 @@ fn run_isolated(case: &Value) -> std::result::Result<String, Vec<(String, String
         let r = w.as_mut().unwrap().run(case);
         if let Err(fails) = &r {
             if fails.iter().any(|(k, _)| k.starts_with("process-death") || k == "timeout") {
+                // only a crash / missed deadline that happens again in a fresh worker is attributed to the case
                 *w = None;
+                let mut fresh = Worker::spawn();
+                let again = fresh.run(case);
+                let crashed_again = matches!(&again, Err(f) if f.iter().any(|(k, _)| k.starts_with("process-death") || k == "timeout"));
+                if !crashed_again {
+                    return again;
+                }
             }
         }
         r
